@@ -238,6 +238,8 @@ class Path:
         m = {}
         for v, labs, _bb in self.conds:
             m[v] = (m[v] & labs) if v in m else set(labs)
+        if _PATH_FACTS[0] is not None:
+            m = expand_helper_conds(_PATH_FACTS[0], m)
         return m
 
     def called(self, pat):
@@ -245,8 +247,13 @@ class Path:
         return [s for s in self.events if callee_matches(s.term, pat)]
 
 
+_PATH_FACTS = [None]
+
+
 def enumerate_paths(body, facts=None, start=0, max_paths=50000, stop_calls=None, max_visits=1):
     """All acyclic paths start -> return (or -> a call in stop_calls)."""
+    if facts is not None or getattr(body, 'facts', None) is not None:
+        _PATH_FACTS[0] = facts if facts is not None else body.facts
     from .facts import callee_matches
     out = []
     nblocks = len(body.blocks)
@@ -469,3 +476,71 @@ def lookup(paths, assignment):
         if ok:
             res.append(p)
     return res
+
+
+_HELPER_SUMMARY = {}
+
+
+def _helper_index(facts):
+    idx = getattr(facts, '_short_index', None)
+    if idx is None:
+        idx = {}
+        for nid in facts.by_nid:
+            if '{closure' in nid or '{impl' in nid:
+                continue
+            parts = nid.split('::')
+            idx.setdefault('::'.join(parts[-2:]), []).append(nid)
+        facts._short_index = idx
+    return idx
+
+
+def helper_summary(facts, short):
+    """(inner description, negated) for a straight-line crate-local bool helper named `Type::name`, else None."""
+    import re as _re
+    key = (id(facts), short)
+    if key in _HELPER_SUMMARY:
+        return _HELPER_SUMMARY[key]
+    res = None
+    nids = _helper_index(facts).get(short, [])
+    if len(nids) == 1 and nids[0].split('::')[0] not in ('std', 'core', 'alloc'):
+        hbs = facts.find(nids[0])
+        if len(hbs) == 1:
+            hb = hbs[0]
+            rty = hb.rec['locals'][0]['ty']
+            if rty == 'bool' and len(hb.switches()) == 0 and len(hb.blocks) <= 12:
+                rd = describe(hb.origin_of_place([0]))
+                neg = False
+                mm = _re.match(r'^Not\((.*)\)$', rd)
+                if mm:
+                    rd, neg = mm.group(1), True
+                if rd.startswith('call:') or ('.' in rd and not rd.startswith('const(')):
+                    res = (rd, neg)
+    _HELPER_SUMMARY[key] = res
+    return res
+
+
+def expand_helper_conds(facts, cm):
+    """Path conditions on the result of a small crate-local bool helper, re-expressed in terms of what the helper
+    returns: {`call:Store::is_torn(err)`: {'true'}} + `fn is_torn(e) -> bool { !e.is_fatal() }` adds
+    {`call:ParseError::is_fatal(e)`: {'false'}}. Only straight-line helpers (no branches) are summarised; the original
+    entries are kept."""
+    import re as _re
+    if facts is None:
+        return cm
+    out = dict(cm)
+    flip = {'true': 'false', 'false': 'true'}
+    for v, labs in list(cm.items()):
+        if not labs or not set(labs) <= {'true', 'false'}:
+            continue
+        m = _re.match(r'^(Not\()?call:([A-Za-z_][\w]*::[A-Za-z_]\w*)\(', v)
+        if not m:
+            continue
+        sm = helper_summary(facts, m.group(2))
+        if sm is None:
+            continue
+        rd, neg = sm
+        if m.group(1):
+            neg = not neg
+        new = {flip[x] for x in labs} if neg else set(labs)
+        out[rd] = (set(out[rd]) & new) if rd in out else new
+    return out
